@@ -69,7 +69,8 @@ pub struct GenOpts {
     pub max_n: usize,
     pub max_s: usize,
     pub reconverge: bool, // few base states, many paths (C09)
-    pub dom_friendly: bool, // some base states are degraded copies of others (so that simulation dominance has pairs)
+    pub dom_friendly: bool,
+    pub few_dead_arcs: bool, // some base states are degraded copies of others (so that simulation dominance has pairs)
 }
 
 impl Table {
@@ -77,11 +78,11 @@ impl Table {
         let max_n = if o.max_n == 0 { 7 } else { o.max_n };
         let max_s = if o.max_s == 0 { 6 } else { o.max_s };
         // swarm: a quarter of the instances are tiny, the rest is biased towards many layers and many base states
-        let tiny = rng.chance(1, 4);
-        let n = if tiny { 2 + rng.below(2) } else { 3 + rng.below(max_n - 2) };
-        let s = if o.reconverge { 1 + rng.below(3) } else if tiny { 1 + rng.below(3) } else { 2 + rng.below(max_s - 1) };
+        let tiny = rng.chance(1, 4) && !o.reconverge;
+        let n = if tiny { 2 + rng.below(2) } else if o.reconverge { 4 + rng.below(max_n - 3) } else { 3 + rng.below(max_n - 2) };
+        let s = if o.reconverge { 2 + rng.below(2) } else if tiny { 1 + rng.below(3) } else { 2 + rng.below(max_s - 1) };
         let d = 2 + rng.below(2);
-        let pdead = rng.below(4); // probability (in 8ths) that an arc is missing
+        let pdead = if o.few_dead_arcs || o.reconverge { rng.below(2) } else { rng.below(4) }; // probability (in 8ths) that an arc is missing
         let cost_lo = -(rng.below(7) as isize);
         let cost_hi = 1 + rng.below(9) as isize;
         let tie_heavy = rng.chance(1, 4);
